@@ -191,6 +191,8 @@ def check_c17(out: Outcome):
     _report_inv(out, "C17", failures)
     # frame half: read-only bits cannot be changed -- the put_spec frame of every mutating function of these declarations
     run_x(out, progs, "C17", tag="C17x", history=False)
+    from . import meta
+    meta.add_obligations(out, "C17")
     return finish(out, "translation_validation", RUSTC_CMD + "; annotator inventory; frame: " + C_KANI,
                   explanation="API inventory of the real expansion vs. the table, must/must-not-compile programs, and the Kani-proved frame of every mutator")
 
